@@ -17,14 +17,18 @@ def main():
     if os.environ.get('SEED'): seed = int(os.environ['SEED'])
     rng = random.Random(seed)
     cfg = prop.gen_config(rng, 'quick')
+    replay = None
+    if os.environ.get('REPLAY'):
+        replay = json.load(open(os.environ['REPLAY']))
+        cfg = replay['config']
     print('CONFIG', json.dumps(cfg))
     scratch = '/dev/shm/berte-debug-%d' % os.getpid()
     w = World(scratch, cfg, prop.LOG_LEVEL); w.setup()
     prop.begin(w, rng)
     n = prop.nops(rng, 'quick')
     try:
-        for step in range(n):
-            op = prop.next_op(w, rng, step, n)
+        for step in range(n if not replay else len(replay['ops'])):
+            op = prop.next_op(w, rng, step, n) if not replay else replay['ops'][step]
             if op is None: break
             print('OP', json.dumps(op))
             recs = prop.apply(w, op) or []
